@@ -664,6 +664,76 @@ func rel(a, size int) string {
 	return ">size"
 }
 
+// bufferedLateWrites (round 8): a BufferedWriteSyncer that reports (len(p), nil) has accepted p for *its*
+// sink - also when the write comes after Stop and another syncer of the same size has been created and
+// used in the meantime.  Each history: syncer A is used and stopped, syncer B is created and written to,
+// A gets late writes; after A.Sync (nil) A's sink holds every byte A acknowledged and nothing else.
+func bufferedLateWrites(r *ev.Run) {
+	n := r.N(300, 6000)
+	for i := 0; i < n; i++ {
+		id := fmt.Sprintf("c13/buffered-late-write/%d", i)
+		if !r.Want(id) {
+			continue
+		}
+		g := rng.For(r.Seed, "c13/late", i)
+		size := rng.Pick(g, []int{0, 0, 64, 1024})
+		sa, sb := &rec.Sink{Name: "A"}, &rec.Sink{Name: "B"}
+		a := &zapcore.BufferedWriteSyncer{WS: sa, Size: size, FlushInterval: time.Hour}
+		var ackA, ackB []byte
+		write := func(b *zapcore.BufferedWriteSyncer, who string, ack *[]byte, k int) bool {
+			p := []byte(fmt.Sprintf("<%s %d %s>\n", who, k, strings.Repeat(who, g.Intn(30))))
+			wn, err := b.Write(p)
+			if wn != len(p) || err != nil {
+				r.Violate(ev.Violation{Case: id, Class: "writer-count:BufferedWriteSyncer-late-write", Msg: fmt.Sprintf("syncer %s (Size=%d): Write(%d bytes) returned (%d, %v)", who, size, len(p), wn, err)})
+				return false
+			}
+			*ack = append(*ack, p...)
+			return true
+		}
+		ok := true
+		for k := 0; k < 1+g.Intn(3) && ok; k++ {
+			ok = write(a, "A", &ackA, k)
+		}
+		_ = a.Stop()
+		b := &zapcore.BufferedWriteSyncer{WS: sb, Size: size, FlushInterval: time.Hour}
+		for k := 0; k < 1+g.Intn(3) && ok; k++ {
+			ok = write(b, "B", &ackB, k)
+		}
+		for k := 10; k < 11+g.Intn(3) && ok; k++ {
+			ok = write(a, "A", &ackA, k)
+			if ok && g.P(1, 2) {
+				ok = write(b, "B", &ackB, k)
+			}
+		}
+		errA := a.Sync()
+		errB := b.Stop()
+		r.Eval(1)
+		r.Distinct(fmt.Sprintf("late|%d|%d", size, i))
+		r.Count("late_write_histories", 1)
+		if !ok {
+			continue
+		}
+		if errA != nil || errB != nil {
+			r.Violate(ev.Violation{Case: id, Class: "buffered-partial-lost", Msg: fmt.Sprintf("Size=%d: Sync of the stopped syncer returned %v, Stop of the second returned %v over sinks that never fail", size, errA, errB)})
+			continue
+		}
+		if got := sa.All(); !bytes.Equal(got, ackA) {
+			r.Violate(ev.Violation{Case: id, Class: "buffered-partial-lost", Msg: fmt.Sprintf("BufferedWriteSyncer(Size=%d) written to after Stop while a second syncer exists: every Write returned (len(p), nil) and Sync returned nil, but its sink holds %d bytes where %d were acknowledged (sink ends %q; the other sink holds %d bytes, its syncer acknowledged %d)", size, len(got), len(ackA), tailS(got), len(sb.All()), len(ackB))})
+			continue
+		}
+		if got := sb.All(); !bytes.Equal(got, ackB) {
+			r.Violate(ev.Violation{Case: id, Class: "buffered-partial-lost", Msg: fmt.Sprintf("BufferedWriteSyncer(Size=%d) created after another one was stopped: its sink holds %d bytes where %d were acknowledged (sink ends %q)", size, len(got), len(ackB), tailS(got))})
+		}
+	}
+}
+
+func tailS(b []byte) string {
+	if len(b) > 60 {
+		b = b[len(b)-60:]
+	}
+	return string(b)
+}
+
 // Run is the C13 monitor.
 func Run(r *ev.Run) {
 	r.Rule = "writers: every zap-provided writer x payload table (empty, whitespace-only, trailing newlines, 1 MiB, random); BufferedWriteSyncer over sinks that accept only part of each write (nil error) or fail once, with write lengths around and above Size; multi-syncer: every outcome vector over {full,short,zero}x{nil,error} for k sinks enumerated, on Write and Sync; wrappers: AddSync/Lock relay table; Lock exclusion: concurrent Write/Sync in a -race child with an unsynchronised in-flight counter; distinct = distinct (writer,payload) / vectors / runs"
@@ -672,7 +742,7 @@ func Run(r *ev.Run) {
 	for _, part := range []struct {
 		name string
 		f    func(*ev.Run)
-	}{{"writers", writers}, {"buffered-over-partial-sink", bufferedOverPartialSink}, {"multi", multi}, {"wrappers", wrappers}} {
+	}{{"writers", writers}, {"buffered-over-partial-sink", bufferedOverPartialSink}, {"buffered-late-writes", bufferedLateWrites}, {"multi", multi}, {"wrappers", wrappers}} {
 		h := mon.Watch(45*time.Second, func() { part.f(r) }, "lockedWriteSyncer", "BufferedWriteSyncer", "props/c13")
 		switch {
 		case h.Panicked != "":
